@@ -356,14 +356,20 @@ class BaseRunner(ABC, Generic[_Request]):
         for site in list(self._sites):
             await site.stop()
 
-        if self._server:  # If setup succeeded
-            # Yield to event loop to ensure incoming requests prior to stopping the sites
-            # have all started to be handled before we proceed to close idle connections.
-            await asyncio.sleep(0)
-            self._server.pre_shutdown()
-            await self.shutdown()
-            await self._server.shutdown(self._shutdown_timeout)
-        await self._cleanup_server()
+        try:
+            if self._server:  # If setup succeeded
+                # Yield to event loop to ensure incoming requests prior to stopping the sites
+                # have all started to be handled before we proceed to close idle connections.
+                await asyncio.sleep(0)
+                self._server.pre_shutdown()
+                try:
+                    await self.shutdown()
+                finally:
+                    # A failing on_shutdown handler must not leave
+                    # connections open or skip the cleanup below.
+                    await self._server.shutdown(self._shutdown_timeout)
+        finally:
+            await self._cleanup_server()
 
         self._server = None
         if self._handle_signals:
